@@ -11,7 +11,7 @@ Ltac coords_same :=
       let H := fresh in
       assert (H : coords s' = coords s)
         by (repeat first [ rewrite set_stage_coords | rewrite bump_coords | reflexivity
-                         | progress cbn [coords set_tasks set_sems set_reqs set_uploads set_shutdown set_coords] ]);
+                         | progress cbn [coords set_tasks set_sems set_reqs set_uploads set_shutdown set_coords set_files] ]);
       rewrite H; apply coords_step_refl
   end.
 
@@ -241,6 +241,9 @@ Proof.
     destruct (r_op r0); injection H as <-; coords_same.
   - (* EResult *)
     destruct (find_coord t (coords s)); [|discriminate]. inv H. injection H as <-. apply coords_step_refl.
+  - (* EFs *)
+    inv H. destruct op; destruct (find_file t (files s)); try discriminate;
+      inv H; injection H as <-; coords_same.
   - (* EShutdownBegin *) inv H. injection H as <-. coords_same.
   - (* EStageShutdown *) inv H. injection H as <-. coords_same.
   - (* EStageJoined *) inv H. injection H as <-. coords_same.
